@@ -175,7 +175,7 @@ def gen_message(r, is_request, gi):
 def gen_ids(r, maxlen, gi):
     """Two different IDs with lengths cycling through all pairs 0..maxlen."""
     pairs = [(a, b) for a in range(maxlen + 1) for b in range(maxlen + 1) if (a, b) != (0, 0)]
-    la, lb = pairs[(gi // 12) % len(pairs)] if r.random() < 0.7 else r.choice(pairs)
+    la, lb = pairs[((gi // 12) * 11) % len(pairs)] if r.random() < 0.7 else r.choice(pairs)
     style = r.random()
     a = rbytes(r, la) if style < 0.6 else (b"\0" * la if style < 0.8 else b"\xff" * la)
     b = rbytes(r, lb) if style < 0.6 else (b"\0" * lb if style < 0.9 else b"\xff" * lb)
@@ -526,3 +526,172 @@ class Engine:
             "id_context": None if p.id_context is None else p.id_context.hex(), "client_sender_id": sc["cid"].hex(), "server_sender_id": sc["sid"].hex(),
             "message": label,
         }
+
+    # -- protect + genuine path (monitors a, b, c and the reference decryption) -----------------
+    def protect_and_check(self, sc, label, sender, spec, protect_rid, receiver, receiver_rid, case, kid_context=True, mtype=0):
+        rep, rc, ref = self.rep, self.rc, self.ref
+        is_request = protect_rid is None
+        where = self.describe(sc, label)
+        try:
+            msg = self.build(spec)
+        except Exception as e:
+            rep.count("harness_build_failed/" + type(e).__name__)
+            return None
+        try:
+            if is_request:
+                outer, rid_out = sender.protect(msg, kid_context=kid_context)
+            else:
+                outer, rid_out = sender.protect(msg, protect_rid)
+            wire = self.to_wire(outer, mtype, sc["mid"], sc["token"])
+        except Exception as e:
+            rep.violation("roundtrip/protect-raises/" + type(e).__name__, "protect()/encode() raised %s for an ordinary %s" % (type(e).__name__, label), dict(where, spec=repr(spec)[:600], tb=rep.exception_witness(e)), case)
+            return None
+        base = rc.parse(wire)
+        expected = self.expected_inner(spec)
+        optset = tuple(sorted({n for n, _v in expected[1]}))
+        # ---- (c) hiding, judged on the wire bytes by the independent codec
+        rep.monitor("hide")
+        ok_codes = OUTER_REQ_CODES if is_request else OUTER_RESP_CODES
+        if base.code not in ok_codes:
+            rep.violation("hide/outer-code-not-fixed", "outer code %s is not one of the fixed outer codes" % rc.code_str(base.code), dict(where, wire=wire[:200].hex()), case)
+        n9 = 0
+        for n, v in base.options:
+            if n == 9:
+                n9 += 1
+            if n not in ALLOWED_OUTER:
+                rep.violation("hide/outer-option-%d" % n, "outer message carries option %d, which is none of OSCORE / host / proxy routing / Observe" % n, dict(where, wire=wire[:200].hex(), value=v[:40].hex()), case)
+        if n9 != 1:
+            rep.violation("hide/oscore-option-count", "outer message carries %d OSCORE options" % n9, dict(where, wire=wire[:200].hex()), case)
+            return None
+        for mk in spec["markers"]:
+            if mk in wire:
+                rep.violation("hide/marker-visible-in-outer-message", "a marker planted in an inner (Class E) field is readable in the outer wire bytes", dict(where, marker=mk.decode("latin1"), wire=wire[:300].hex()), case)
+        for n, _v in spec["outer"]:
+            if n not in [x for x, _ in base.options]:
+                rep.count("class_u_option_not_carried_outer/%d" % n)
+        optv = rc.opt1(base, 9)
+        ct = base.payload
+        # ---- reference: the RFC's construction must open what aiocoap sealed
+        rep.monitor("ref_decrypt")
+        try:
+            o = ref.parse_option(optv)
+        except ref.RefError as e:
+            rep.violation("ref/option-undecodable", "protect() produced an OSCORE option RFC 8613 section 6.1 cannot decode: %s" % e, dict(where, option=optv.hex()), case)
+            return None
+        p, cid, sid = sc["params"], sc["cid_of"](sender, receiver), None
+        req_kid, req_piv = (sender.sender_id, o.piv) if is_request else (protect_rid.kid, protect_rid.partial_iv)
+        if o.piv is not None:
+            nonce_id, nonce_piv = sender.sender_id, o.piv
+        else:
+            nonce_id, nonce_piv = req_kid, req_piv
+        pt = None
+        try:
+            if nonce_piv is not None:
+                pt = ref.open_(p, sender.sender_id, nonce_id, nonce_piv, req_kid, req_piv, ct)
+        except ref.RefError as e:
+            rep.count("ref_inadmissible/" + str(e)[:40])
+        if pt is None:
+            rep.violation("ref/%s-not-openable-by-rfc8613-construction" % label, "the ciphertext does not verify under key/nonce/AAD built independently from RFC 8613 sections 3.2.1, 5.2, 5.4", dict(where, option=optv.hex(), ciphertext=ct[:80].hex(), request_kid=req_kid.hex(), request_piv=None if req_piv is None else req_piv.hex()), case)
+        else:
+            try:
+                got_pt = ref.split_plaintext(pt)
+                got_pt = (got_pt[0], list(got_pt[1]), got_pt[2])
+            except Exception as e:
+                got_pt = ("unparsable", repr(e))
+            if got_pt != expected:
+                rep.violation("ref/plaintext-differs", "the decrypted plaintext is not code + Class E options + payload of the original", dict(where, want=repr(expected)[:500], got=repr(got_pt)[:500]), case)
+        if is_request:
+            if o.kid != sender.sender_id:
+                rep.violation("ref/request-kid-not-sender-id", "request carries kid %r" % (o.kid,), dict(where, option=optv.hex()), case)
+            want_kc = p.id_context if kid_context is True else None
+            if o.kid_context != want_kc:
+                rep.violation("ref/request-kid-context-unexpected", "request carries kid context %r" % (o.kid_context,), dict(where, option=optv.hex()), case)
+        # ---- (a)/(b) round trip through the wire
+        mon = {"request": "rt_request", "response-reuse": "rt_response_reuse", "response-ownpiv": "rt_response_ownpiv"}[label]
+        base_sig = (label, p.alg, len(sc["cid"]), len(sc["sid"]), sc["idctx_class"], piv_len_class(o), spec["code"], optset, size_class(len(spec["payload"])))
+        try:
+            incoming = self.Message.decode(wire)
+        except Exception as e:
+            rep.violation("roundtrip/outer-not-decodable/" + type(e).__name__, "Message.decode refuses the encoded outer message", dict(where, wire=wire[:300].hex()), case)
+            return None
+        receiver.recipient_replay_window.initialize_empty()
+        rid_in = None
+        try:
+            inner, rid_in = receiver.unprotect(incoming, self.copy.copy(receiver_rid) if receiver_rid is not None else None)
+            got = self.fields(inner)
+        except Exception as e:
+            got = None
+            rep.violation("roundtrip/unprotect-raises/" + type(e).__name__, "unprotect() of a genuine %s under the matching context raised %s" % (label, type(e).__name__), dict(where, option=optv.hex(), ciphertext=ct[:80].hex(), tb=rep.exception_witness(e)), case)
+        rep.monitor(mon)
+        rep.case((base_sig, "genuine", "ok" if got == expected else "differs"), nontrivial=True)
+        if got is not None and got != expected:
+            diff = "code" if got[0] != expected[0] else ("payload" if got[2] != expected[2] else "options")
+            rep.violation("roundtrip/%s-%s-differ" % (label, diff), "unprotect(protect(m)) differs from m in %s" % diff, dict(where, want=repr(expected)[:600], got=repr(got)[:600]), case)
+            got = None
+        return {
+            "label": label, "is_request": is_request, "wire": wire, "base": base, "opt": o, "optv": optv, "ct": ct, "receiver": receiver,
+            "receiver_rid": receiver_rid, "genuine": got, "sig": base_sig, "rid_out": rid_out, "rid_in": rid_in, "where": where, "spec": spec,
+            "request_piv": req_piv, "sender": sender,
+        }
+
+    # -- (e) tampering ---------------------------------------------------------------------------
+    def settle(self, t, family, manip, field, optv, ct, case):
+        """Run one manipulated message through unprotect and judge it."""
+        rep, ref = self.rep, self.ref
+        if optv == t["optv"] and ct == t["ct"]:
+            return
+        recv = t["receiver"]
+        verdict, reason = judge(ref, recv.recipient_id, recv.id_context, t["is_request"], t["opt"], t["ct"], optv, ct)
+        outcome, detail = self.attempt(recv, t["base"], optv, ct, t["receiver_rid"])
+        if outcome == "skipped":
+            return
+        rep.monitor(family)
+        rep.case((t["sig"], manip, field, verdict, outcome), nontrivial=True)
+        rk = reason.replace("malformed:", "malformed-").replace(" ", "-").replace("=", "").replace(",", "")
+
+        def wit(**kw):
+            w = dict(t["where"], manipulation=manip, field=field, expectation=verdict + ": " + reason, genuine_option=t["optv"].hex(), genuine_ciphertext=t["ct"][:96].hex(), genuine_ciphertext_len=len(t["ct"]),
+                     option=None if optv is None else optv.hex(), ciphertext=ct[:96].hex(), ciphertext_len=len(ct),
+                     request_kid=None if t["receiver_rid"] is None else t["receiver_rid"].kid.hex(), request_piv=None if t["receiver_rid"] is None else t["receiver_rid"].partial_iv.hex())
+            w.update(kw)
+            return w
+
+        if outcome == "escape":
+            mech = escape_mechanism(ref, detail, optv)
+            rep.violation("tamper/escape-%s/%s" % (type(detail).__name__, mech), "unprotect() let %s escape instead of a protection error for a manipulated %s" % (type(detail).__name__, t["label"]), wit(exc=repr(detail), tb=rep.exception_witness(detail)), case)
+            return
+        if outcome == "rejected":
+            rep.count("rejected/" + type(detail).__name__)
+            return
+        if outcome == "not-protected":
+            if optv is not None:
+                rep.violation("tamper/not-a-protected-message-with-option-present", "NotAProtectedMessage although an OSCORE option is present", wit(), case)
+            return
+        same = detail == t["genuine"]
+        if verdict == "must_fail":
+            rep.violation("tamper/accepted-%s/%s" % ("original" if same else "DIFFERENT-MESSAGE", rk), "unprotect() yielded %s for a %s whose %s" % ("the original message" if same else "a different message", t["label"], reason), wit(got=repr(detail)[:400]), case)
+        elif not same:
+            rep.violation("tamper/neutral-manipulation-yields-different-message", "a semantically neutral re-encoding of the option made unprotect() return a different message", wit(got=repr(detail)[:400], want=repr(t["genuine"])[:400]), case)
+        else:
+            rep.count("neutral_accepted/" + manip)
+
+    def tamper(self, t, r, case, other_ct):
+        recv = t["receiver"]
+        optv, ct = t["optv"], t["ct"]
+        tag = recv.alg_aead.tag_bytes
+        maxid = recv.alg_aead.iv_bytes - 6
+        for bit in flips_for(r, optv, 40, 8, 9, 24):
+            self.settle(t, "tamper_bitflip_option", "flip-option-bit", option_field_of_byte(t["opt"], optv, bit // 8) + (".bit%d" % (bit % 8) if bit < 8 else ""), flip(optv, bit), ct, case)
+        for bit in flips_for(r, ct, 48, 8, 17, 64):
+            self.settle(t, "tamper_bitflip_ciphertext", "flip-ciphertext-bit", "tag" if bit // 8 >= len(ct) - tag else "body", optv, flip(ct, bit), case)
+        for name, ov in option_edits(r, self.ref, t["opt"], recv.recipient_id, recv.sender_id, recv.id_context, t["request_piv"] if not t["is_request"] else None, maxid):
+            self.settle(t, "tamper_field", name, "option", ov, ct, case)
+        for k in range(len(optv)):
+            self.settle(t, "tamper_field", "option-truncated", option_field_of_byte(t["opt"], optv, k), optv[:k], ct, case)
+        self.settle(t, "tamper_field", "option-removed", "option", None, ct, case)
+        for name, c2 in ciphertext_edits(r, ct, tag, other_ct):
+            self.settle(t, "tamper_field", name, "ciphertext", optv, c2, case)
+        # both at once: another genuine option with this ciphertext is covered by the PIV edits; a flipped
+        # bit in each must of course still fail
+        if optv:
+            self.settle(t, "tamper_field", "flip-both", "option+ciphertext", flip(optv, r.randrange(len(optv) * 8)), flip(ct, r.randrange(len(ct) * 8)), case)
